@@ -6,6 +6,7 @@
    meaning (they do not depend on the shape of the generated term). *)
 From RG Require Import Base.Bytes Base.LineTerm Model.Lines Model.SearcherCore Model.Glue Model.SearcherGlue
   Model.Decode Model.Summary Model.Standard Model.Json Model.IgnoreDir Model.Walk Model.LibExpected Model.LibArgs Gen.DecisionsLib.
+From RG Require Model.LineBufferBin Model.BinaryDetect.
 Local Open Scope bool_scope.
 
 (* the model keeps matcher.non_matching_bytes() as one membership function, "false if None" (Model/SearcherCore.v
@@ -181,4 +182,23 @@ Proof.
   destruct (ss ig e); [reflexivity|].
   destruct mf as [m|]; destruct (de_is_dir e); destruct hf; cbn [andb negb];
     try destruct (Walk.skip_filesize fs m e); try destruct (filter e); reflexivity.
+Qed.
+
+(* ------------------------------------------------------------------ core.rs Core::detect_binary (Model/BinaryDetect.v) *)
+(* the value detect_binary returns; the model's new binary_byte_offset and the EBinary event are not part of the tie *)
+Lemma detect_binary_result_eq :
+  forall (St : Type) (sink : St -> BinaryDetect.event -> St * bool) (mode : LineBufferBin.bin_mode) (buf : bytes)
+         (s e : nat) (cb : option nat) (w : BinaryDetect.world),
+    DecisionsLib.detect_binary_result
+      (match cb with Some _ => true | None => false end) (LineBufferBin.is_quit mode) mode s
+      (fun b => memchr b (sub buf s e))
+      (fun off => snd (BinaryDetect.emit sink w (BinaryDetect.EBinary off)))
+    = fst (fst (BinaryDetect.detect_binary sink mode buf s e cb w)).
+Proof.
+  intros St sink mode buf s e cb w.
+  unfold DecisionsLib.detect_binary_result, detect_binary_result_expected, BinaryDetect.detect_binary.
+  destruct cb as [o|]; [reflexivity|].
+  destruct mode as [|b|b]; [reflexivity| |];
+    (destruct (memchr b (sub buf s e)) as [i|]; [|reflexivity];
+     destruct (BinaryDetect.emit sink w (BinaryDetect.EBinary (s + i))) as [w' r]; destruct r; reflexivity).
 Qed.
